@@ -159,6 +159,60 @@ def to_bytes_ops(ops):
             for o in ops]
 
 
+TRICKY = ["", "a b", "a/b", "a%2Fb", "%", "%41", "+", "a+b", "?", "#", "&", "=", "a&b=c", "é", "\u2603", "..", ".", "a;b", "a,b", "~", " ", "%zz", "a%", "/", "//", ":", "@"]
+
+
+def clients_stage(out, rng):
+    """the same law through the GENERATED and the MACRO clients (clients.rs / conjure_client emit the UriBuilder calls and
+    choose the encoders): every string of TRICKY as path, query, optional / list / set query value - what the server's decoders
+    hand to the handler is what the caller passed, and the handler runs once."""
+    docs, meta = [], {}
+    k = 0
+
+    def add(endpoint, args, pairs):
+        nonlocal k
+        for client, server in pairs:
+            cid = "u%d" % k
+            k += 1
+            docs.append(json.dumps({"id": cid, "endpoint": endpoint, "args": args, "ret": "r", "client": client, "server": server, "mutations": [], "smile": False, "chunk": 1}))
+            meta[cid] = (endpoint, args, client, server)
+    gen = [("gen-blocking", "gen-blocking"), ("gen-async", "gen-async")]
+    mac = [("macro-blocking", "macro-blocking"), ("macro-async", "macro-async")]
+    for i, t in enumerate(TRICKY):
+        u = TRICKY[(i * 7 + 3) % len(TRICKY)]
+        if t not in ("", ".", ".."):          # empty and dot segments are not routable values
+            add("attrs", {"b": "ok:" + t, "bee": "ok:" + u, "sea": i, "pq": "ok:" + t, "hh": "ok:h", "ls": [t, u, ""]}, mac)
+            add("ctxCall", {"p": t, "hoa": None, "q": u}, gen)
+        add("optQuery", {"first": t, "lst": [], "st": sorted({t, u}), "last": None}, gen)
+        add("optQuery", {"first": None, "lst": [i], "st": [t], "last": i}, gen)
+        add("attrs", {"b": "ok:x", "bee": "ok:y", "sea": 1, "pq": "ok:" + u, "hh": "ok:h", "ls": [t]}, mac)
+        add("attrs", {"b": "ok:x", "bee": "ok:y", "sea": 1, "pq": "ok:z", "hh": "ok:h", "ls": ["", t, "", u]}, mac)
+    n = 0
+    for obs in vc.ndjson(vc.harness("vgen", ["rpc"], stdin="\n".join(docs) + "\n")):
+        endpoint, args, client, server = meta[obs["id"]]
+        n += 1
+        rep = {"endpoint": endpoint, "args": args, "client": client, "server": server}
+        if "panic" in obs or "skip" in obs:
+            out.violation("C07:client:panic:%s" % endpoint, "the call panicked or could not be made: %s" % str(obs.get("panic") or obs.get("skip"))[:100], rep)
+            continue
+        err = obs["client"].get("err")
+        calls = obs["handler_calls"]
+        uri = obs["exchanges"][0]["sent_uri"] if obs["exchanges"] else None
+        if err is not None or len(calls) != 1:
+            out.violation("C07:client:structure:%s" % endpoint, "the request built for %s did not reach the handler exactly once (%s); URI %r" % (
+                json.dumps(args)[:80], (err or {}).get("cause", "%d calls" % len(calls)), uri), rep)
+            continue
+        got = calls[0]["args"]
+        for name, want in args.items():
+            g = got.get(name)
+            same = (sorted(g or []) == sorted(want)) if name == "st" else (g == want)
+            if not same:
+                out.violation("C07:client:decode:%s:%s" % (endpoint, name), "argument %s: passed %s, decoded %s; URI %r" % (name, json.dumps(want)[:60], json.dumps(g)[:60], uri), rep)
+    if n != len(docs):
+        raise vc.ToolError("rpc harness answered %d of %d cases" % (n, len(docs)))
+    return n
+
+
 def run(tier, seed):
     out = vc.Outcome(PID, tier, seed, "model_checking")
     rng = vc.Rng(seed)
@@ -223,6 +277,8 @@ def run(tier, seed):
         if len(samples) < 3 and obs["id"].startswith("c") and len(nontrivial) % 97 == 1:
             samples.append({"kind": "S->I", "ops": c["ops"], "model_uri": b2s(c["uri"]) if c.get("uri") else None,
                             "observed_uri": b2s(obs["uri"]) if obs.get("uri") else None})
+
+    replayed += clients_stage(out, rng)
 
     # ---- I->S ----
     nruns = 1500 if tier == "quick" else 15000
